@@ -1805,6 +1805,32 @@ pub fn oracle_c08(scn: &E2Scn, d: &D2, out: &RunOut, stats: &mut Stats) -> Vec<V
             vs.push(Violation::new("process-survives-shutdown", manner, format!("child {c} of job {job} was still alive after main ended and the runtime was shut down")));
         }
     }
+    // what `list_jobs()` showed each invocation of the handler: every job created by an earlier invocation that nothing
+    // ever deletes (the worker holds its handle: it cannot die), and nothing that was never created
+    for r in &out.hist {
+        if let Ev::Note { what: "listed-jobs", a, b } = &r.ev {
+            let n = *b as u32;
+            let earlier: Vec<&e2::JobPlan> = scn.jobs.iter().filter(|j| j.at_batch < n).collect();
+            let mut ids = BTreeSet::new();
+            let mut immortal = BTreeSet::new();
+            for (k, j) in earlier.iter().enumerate() {
+                let key = j.fixed_id.map(|f| 10_000 + f as usize).unwrap_or(k);
+                ids.insert(key);
+                let deleted = j.ops.iter().chain(j.later.iter().map(|l| &l.1)).any(|o| matches!(o, Op::Delete | Op::DeleteNow));
+                if !deleted && j.fixed_id.is_none() {
+                    immortal.insert(key);
+                }
+            }
+            stats.hit("probe:list-jobs-judged");
+            if (*a as usize) < immortal.len() || (*a as usize) > ids.len() {
+                vs.push(Violation::new(
+                    "wrong-job-list",
+                    "",
+                    format!("action {n}: list_jobs() showed {a} job(s); {} were created by earlier actions, {} of them can never have ended", ids.len(), immortal.len()),
+                ));
+            }
+        }
+    }
     // after a graceful quit of a grouped command every member of the group is dead
     if qp.graceful.is_some() {
         for r in &out.hist {
@@ -1918,6 +1944,7 @@ impl Check for C08 {
             "probe:quit-with-pending-async-control",
             "probe:quit-with-deleted-job",
             "probe:grouped-command-with-grandchildren",
+            "probe:list-jobs-judged",
             "probe:cli-grouped-command-with-grandchildren",
             "probe:cli-ungrouped-command-with-grandchildren",
             "probe:cli-quit",
